@@ -16,7 +16,7 @@ From Verif Require Import Base.Result Base.PyDict Model.Domain Model.Exec Model.
   Spec.Pddl Spec.Rename
   Base.Sexp Model.Types
   Proofs.C18_Dict Proofs.C18_Alpha Proofs.C18_Denote Proofs.C18_Exec Proofs.C18_Check Proofs.C18_Parser Proofs.C18_Legacy
-  Proofs.C18_Main.
+  Proofs.C18_Main Proofs.C18_Seq Proofs.C18_ParsedDomain.
 Import ListNotations.
 Open Scope string_scope.
 Open Scope list_scope.
@@ -86,6 +86,41 @@ Theorem C18_rename_parsed (num : numparser) (dom : mdomain) (e : list sexp) (a :
   same_behaviour dom a (change_signature m a).
 Proof. exact (rename_parsed num dom e a m). Qed.
 
+(* ---- the same for the actions of a PARSED DOMAIN, with no assumption on tables left: every action registered in the
+        domain returned by parse_domain is well formed as soon as no (:functions ...) section of the text declares a
+        function named like a comparison / assignment operator (funcs_heads_ok, a decidable condition on the text:
+        funcs_heads_okb) and no numeral starts with '<' or '>' ---- *)
+Theorem C18_parsed_domain_well_formed (num : numparser) (e : sexp) (dom : mdomain) :
+  num_ok num -> funcs_heads_ok e -> parse_domain num e = Ok dom ->
+  forall n a, dget (d_actions dom) n = Some a -> well_formed a = true.
+Proof. exact (parsed_domain_well_formed num e dom). Qed.
+
+Theorem C18_rename_parsed_domain (num : numparser) (e : sexp) (dom : mdomain) (name : string) (a : maction) (m : renaming) :
+  num_ok num -> funcs_heads_ok e -> parse_domain num e = Ok dom -> dget (d_actions dom) name = Some a ->
+  let ps := dkeys (ma_sig a) in
+  (forall n, ~ In n ps -> rn m n = n) ->
+  (forall x y, In x ps -> In y ps -> rn m x = rn m y -> x = y) ->
+  (forall p, In p ps -> rn m p <> p ->
+     (In (rn m p) ps \/ ~ In (rn m p) (names_action a)) /\
+     ~ In (rn m p) (bound_maction a) /\ dmem (d_consts dom) (rn m p) = false /\ dmem (d_consts dom) p = false) ->
+  ma_sig (change_signature m a) = map (rn_item m) (ma_sig a) /\
+  denote_action (change_signature m a) = option_map (ren_action (rn m)) (denote_action a) /\
+  same_behaviour dom a (change_signature m a).
+Proof. exact (rename_parsed_domain num e dom name a m). Qed.
+
+(* its hypotheses are satisfiable: a domain text read by the model's tokenizer and parser, whose action holds the mirrored
+   literals (p ?x ?y) (p ?y ?x), a forall condition, a when and a forall-when effect; swapped ?x <-> ?y *)
+Example C18_example_parsed :
+  Tokenizer.parse Tokenizer.MFile (Base.Str.s2t exd_text) = Ok exd_sexp /\
+  parse_domain exd_num exd_sexp = Ok exd_dom /\ dget (d_actions exd_dom) "act" = Some exd_act /\
+  num_ok exd_num /\ funcs_heads_ok exd_sexp /\
+  List.length (ma_cond exd_act) = 1 /\ List.length (ma_univ exd_act) = 1.
+Proof. exact exd_parsed. Qed.
+
+Example C18_example_parsed_swap :
+  same_behaviour exd_dom exd_act (change_signature [("?x", "?y"); ("?y", "?x")] exd_act).
+Proof. exact exd_swap_behaviour. Qed.
+
 (* ---- model and spec together: the action denoted by the renamed object model has the applicability and the
         successors of the action denoted by the original ---- *)
 Theorem C18_denoted_behaviour (dom : mdomain) (m : renaming) (a : maction) (A : action) :
@@ -95,6 +130,37 @@ Theorem C18_denoted_behaviour (dom : mdomain) (m : renaming) (a : maction) (A : 
       applicable eps tt objs A' args s = applicable eps tt objs A args s /\
       successor eps tt objs A' args s = successor eps tt objs A args s.
 Proof. exact (denoted_behaviour dom m a A). Qed.
+
+(* ---- several calls in a row (the same mapping again, another one, the inverse): when every step passes the side
+        condition on the action it is applied to (ok_seq), the final object model denotes the original action under the
+        composed substitution and behaves as the original ---- *)
+Theorem C18_rename_seq (dom : mdomain) (ms : list renaming) (a : maction) :
+  ok_seq dom a ms = true ->
+  denote_action (cs_seq ms a) = option_map (ren_seq ms) (denote_action a) /\
+  same_behaviour dom a (cs_seq ms a).
+Proof. exact (rename_seq_correct dom ms a). Qed.
+
+(* ---- the round trip is exact: a mapping that passes the side condition followed by ANY mapping that sends every new
+        name back to the old one returns the action itself (the same object model, not only the same behaviour) ---- *)
+Theorem C18_roundtrip (dom : mdomain) (a : maction) (m m' : renaming) :
+  renaming_ok dom a m = true ->
+  (forall n, In n (names_action a) -> rn m' (rn m n) = n) ->
+  change_signature m' (change_signature m a) = a.
+Proof. exact (roundtrip_exact dom a m m'). Qed.
+
+Example C18_example_roundtrip :
+  change_signature (turned ex_rotation) (change_signature ex_rotation ex_act) = ex_act /\
+  change_signature (turned ex_swap) (change_signature ex_swap ex_act) = ex_act /\
+  change_signature (turned ex_chain) (change_signature ex_chain ex_act) = ex_act /\
+  change_signature (turned ex_fresh) (change_signature ex_fresh ex_act) = ex_act /\
+  change_signature ex_swap (change_signature ex_swap ex_act) = ex_act.
+Proof. exact ex_roundtrip. Qed.
+
+Example C18_example_seq :
+  ok_seq ex_dom ex_act [ex_rotation; ex_rotation; ex_rotation] = true /\
+  cs_seq [ex_rotation; ex_rotation; ex_rotation] ex_act = ex_act /\
+  ok_seq ex_dom ex_act [ex_chain; turned ex_chain; ex_swap; ex_fresh] = true.
+Proof. exact ex_seq_ok. Qed.
 
 (* ---- the hypotheses are satisfiable: a 3-parameter action with a nested or, a forall condition, a when and a
         forall-when effect and a constant, under a rotation of its parameter names, a swap, a chain, fresh names ---- *)
@@ -181,7 +247,11 @@ Print Assumptions C18_rename.
 Print Assumptions C18_side_condition.
 Print Assumptions C18_parser_well_formed.
 Print Assumptions C18_rename_parsed.
+Print Assumptions C18_parsed_domain_well_formed.
+Print Assumptions C18_rename_parsed_domain.
 Print Assumptions C18_denoted_behaviour.
+Print Assumptions C18_rename_seq.
+Print Assumptions C18_roundtrip.
 Print Assumptions C18_rename_partial.
 Print Assumptions C18_refuted.
 Print Assumptions C18_legacy_partial.
